@@ -2,7 +2,7 @@ SPEC = {
     "id": "C10",
     "level": "proof",
     "lean_modules": ["PallasVerif.Props.C10"],
-    "required_theorems": ["stream_eq_oneshot", "hash_tagged_eq", "hash_cbor_eq", "hash_tagged_cbor_eq", "hash_hex_roundtrip",
+    "required_theorems": ["stream_eq_oneshot", "stream_eq_oneshot_array", "blake2b_eq_rfc_indexed", "hash_tagged_eq", "hash_cbor_eq", "hash_tagged_cbor_eq", "hash_hex_roundtrip",
                           "hash_from_str_length", "hash_cbor_roundtrip", "hash_decode_rejects", "hash_decode_length",
                           "epoch_nonce_def", "rolling_nonce_def", "rolling_nonce_panics_iff"],
     "streams": [{"name": "hash", "quick": 300, "thorough": 6000}],
@@ -13,7 +13,8 @@ SPEC = {
             "with/without extra entropy, rolling nonce with 32/64/other VRF lengths); distinct = sha1 of the op text; non-trivial = the batch "
             "hashes more than 128 bytes in at least two non-empty chunks (so the kept-back block logic of update_mut runs)",
     "trusted_base": [
-        "Model/Blake2b.lean (RFC 7693 F/G/IV/SIGMA + cryptoxide ContextDyn update_mut/internal_final, buffer modelled as its live prefix) and "
+        "Model/Blake2b.lean (RFC 7693 F/G/IV/SIGMA + cryptoxide ContextDyn update_mut/internal_final), Model/Blake2bArray.lean (the same context "
+        "at the level of its fixed 128-byte array + cursor, which is what the stream runs; proved to refine the former) and "
         "Model/Hash.lean (Hasher entry points as input() sequences, hex 0.4.3 decode_to_slice, minicbor 0.26.5 Decoder::bytes, nonces) are hand "
         "transcriptions; tie = stream `hash` (digest / codec result / error class / panic compared on every op)",
         "the compression function's agreement with cryptoxide's compress_b (reference / AVX / AVX2 back ends) is established only by that "
